@@ -43,6 +43,9 @@ type Backend struct {
 	dead bool // a call timed out: the handle may be wedged, stop using it (only read after the calls are over)
 	dmu  sync.Mutex
 	wrap func(store.Store) store.Store
+	// every call runs in a goroutine of its own (deadline); enter, when set, is told the calling
+	// goroutine from inside the new one and returns what to do when the call is over
+	enter func(parent int64) func()
 }
 
 func openStore(name, dir string) (store.Store, error) {
@@ -156,7 +159,14 @@ func (b *Backend) guarded(fn func(res E) error) E {
 		res E
 	}
 	ch := make(chan E, 1)
+	var parent int64
+	if b.enter != nil {
+		parent = goid()
+	}
 	go func() {
+		if b.enter != nil {
+			defer b.enter(parent)()
+		}
 		res := E{}
 		defer func() {
 			if r := recover(); r != nil {
